@@ -693,3 +693,6 @@ extend('C20', 'Round 7: flatten() writes headers with the BytesGenerator '
 extend('C11', 'Round 8: MxRecord.get reaches its permanent "no records" '
        'verdict only after a lookup of its own returned, or with records '
        'that are not expired.')
+extend('C17', 'Round 8: recv_reply raises BadReply only where a pattern '
+       'ending in LF has matched on the path (or in the decode arm): no '
+       'verdict on the part of a line that has arrived so far.')
